@@ -71,13 +71,19 @@ Proof.
   - rewrite (IH _ _ I). apply step_consts.
 Qed.
 
-Theorem wire_model inp : prop_case inp (run_case inp) = 0.
+Theorem wire_model inp :
+  prop_case inp (run_case inp) = 0
+  \/ (prop_case inp (run_case inp) = 8 /\ finding_sig inp (run_case inp) = 2).
 Proof.
-  unfold prop_case, run_case. destruct (decode inp) as [j0 ops].
+  unfold prop_case, finding_sig, run_case. destruct (decode inp) as [j0 ops].
   assert (L : length ops = length (observe j0 ops)).
   { unfold observe. rewrite observe_fx_eq. symmetry. apply obs_length. }
   rewrite L. rewrite parse_obs_enc.
-  - apply prop_code_model.
+  - destruct (prop_code_model j0 ops) as [P|P]; [left; exact P|right].
+    rewrite P. split; [|reflexivity].
+    unfold finding_code in P.
+    destruct ((prop_code j0 ops (observe j0 ops) =? 7) && _); [discriminate|].
+    destruct (prop_code j0 ops (observe j0 ops) =? 8) eqn:E; [apply Z.eqb_eq; exact E|discriminate].
   - intros o I. unfold observe in I. rewrite observe_fx_eq in I.
     apply (obs_consts _ _ _ _ I).
 Qed.
